@@ -166,8 +166,15 @@ def r3_bounds_reach_scan(ctx):
                 if m.kind == 'stmt' and isinstance(m.ast, ast.AugAssign) and isinstance(m.ast.op, ast.Add) and is_name(m.ast.target, pos) and \
                         isinstance(m.ast.value, ast.Call) and is_name(m.ast.value.func, 'len'):
                     adv = True
-            rep.ob('C06.R3', ctx.loc(f, c), '%s += len(piece)' % pos, adv and pos in startvars,
-                   'after a match the lower bound moves past the piece' if adv and pos in startvars else 'the lower bound is not advanced past a matched piece', anchor=EM)
+            # ... and it is the variable the NEXT search starts from: the found position is stored in the lower-bound variable itself, or copied into it
+            lo_names = {x.id for x in ast.walk(lo) if isinstance(x, ast.Name)} if lo is not None else set()
+            lo_names = {x for x in lo_names if x in startvars}
+            feeds = pos in lo_names or any(d.name in lo_names and is_name(d.value, pos) and d.kind == 'assign' for d in rd.defs)
+            rep.ob('C06.R3', ctx.loc(f, c), '%s += len(piece)' % pos, adv and pos in startvars and feeds,
+                   'after a match the lower bound moves past the piece' if adv and pos in startvars and feeds else
+                   ('the lower bound is not advanced past a matched piece' if not (adv and pos in startvars) else
+                    'the position that is advanced past a matched piece (`%s`) is not the one the next search starts from (%s): every piece is searched from the same place, so pieces can match '
+                    'out of order or overlapping' % (pos, sorted(lo_names))), anchor=EM)
     # every remaining piece is searched: the scan loop runs over the list the anchored pieces were removed from, not over a part of it
     for (n, c) in searches:
         loops_ = [fr for fr in n.frames if fr.kind == 'loop']
